@@ -238,6 +238,32 @@ class Sys(e2.DevSys):
                 if e[3] != 0 and (e[3] != cfg["ttl"] or not e[4]):
                     self.viol("offer-content", "ttl" if e[3] != cfg["ttl"] else "fields",
                               f"instance {i}: offer at {e[0]} ttl={e[3]} content_ok={e[4]}")
+            # no offer of any kind may leave during an initial wait phase (before the run's first offer)
+            r_ = self.loop._clock_resolution
+            for n, (ts, te, _p, _d) in enumerate(ivs):
+                if n == 0:
+                    continue
+                first = ts + self.d
+                prev_stop_seq = None
+                k = 0
+                for e in mc:
+                    if e[3] == 0:
+                        k += 1
+                        if k == n:
+                            prev_stop_seq = e[1]
+                for e in evs:
+                    if e[3] == 0 or e[0] >= first - r_ or e[0] < ts - r_:
+                        continue
+                    if te is not None and e[0] > te + r_:
+                        continue
+                    if prev_stop_seq is not None and e[1] < prev_stop_seq:
+                        continue  # left before the previous run's StopOffer: belongs to that run
+                    if abs(e[0] - ts) < r_ and self.d == 0:
+                        continue
+                    self.viol("initial-wait", "offer-before-first-offer",
+                              f"instance {i} restarted at {ts}: Offer with TTL {e[3]} sent to {e[2]} at {e[0]}, before the "
+                              f"first offer of the run is due at {first} (finds {self.finds})")
+                    break
             # unicast offers (answers to FindService) must not follow the stop
             stops_seq = {}
             for e in mc:
@@ -324,12 +350,24 @@ def extra_cfgs(ctx):
     return two, helper
 
 
+def find_stop_start(cfg, devs, p, k):
+    """third disturbance: FindService, stop and start again while the (delayed) answer is pending"""
+    return (k == 3 and not cfg.get("helper") and devs[0][2][0] == "find" and devs[1][2][0] == "ann-stop"
+            and p[2][0] == "ann-start" and devs[1][0] - devs[0][0] <= 0.07 and p[0] - devs[1][0] <= 0.07
+            and cfg["window"] != (0.0, 0.0))
+
+
 def restrict_quick(cfg, devs, p, k):
     if k <= 1:
         return True
+    if k == 3:
+        return find_stop_start(cfg, devs, p, k) and cfg["reps"] == 1 and cfg["ttl"] == 3
     # second disturbance: only within 1.25 s after the first, and only for a sub-family of configurations
     if cfg.get("helper") or cfg.get("instances", 1) > 1:
         return False
+    if devs[0][2][0] == "find" and p[2][0] == "ann-stop" and p[0] - devs[0][0] <= 0.07 and cfg["reps"] == 1 \
+            and cfg["ttl"] == 3 and cfg["window"] != (0.0, 0.0):
+        return True
     if not (cfg["reps"] == 1 and cfg["collect"] != 0 and cfg["ttl"] == 3):
         return False
     return p[0] - devs[-1][0] <= 1.25
@@ -338,14 +376,14 @@ def restrict_quick(cfg, devs, p, k):
 def restrict_thorough(cfg, devs, p, k):
     if k <= 2:
         return not (k == 2 and cfg.get("helper"))
-    return False
+    return find_stop_start(cfg, devs, p, k)
 
 
 def check(ctx):
     cfgs = base_cfgs(ctx)
     two, helper = extra_cfgs(ctx)
     allc = cfgs + two + helper
-    res, viols = e2.search(ctx, Sys, allc, 2, restrict=restrict_thorough if ctx.thorough else restrict_quick)
+    res, viols = e2.search(ctx, Sys, allc, 3, restrict=restrict_thorough if ctx.thorough else restrict_quick)
     samples = core.Samples()
     samples.add(dict(cfg=allc[0], devs=[]), "default schedule")
     samples.add(dict(cfg=allc[5], devs=[[1.25, "post", ["ann-stop"]], [1.25 + 2 ** -10, "pre", ["find", 1]]]), "two disturbances")
